@@ -93,9 +93,9 @@ def _judge(col: Collector, f: Func, what: str, scen: str, res: V, it: Interp, wa
     return True
 
 
-def run(prog: Program, col: Collector, refs: Refs, cat: Catalogue):
+def run(prog: Program, col: Collector, refs: Refs, cat: Catalogue, rule_log: str = "R15.8", rule_safe: Optional[str] = "R15.9"):
     # ------------------------------------------------------------------ R15.8 logaddexp / logsumexp / log-einsum
-    col.rule("R15.8", "logaddexp, logsumexp and the log-space einsum are NaN-free on {-inf, finite} and exact at -inf (special-value abstract interpretation)", floor=5)
+    col.rule(rule_log, "logaddexp, logsumexp and the log-space einsum are NaN-free on {-inf, finite} and exact at -inf (special-value abstract interpretation)", floor=5)
     n_scen = 0
     for opname in ("logaddexp",):
         op, targets = _targets(prog, cat, opname)
@@ -162,7 +162,10 @@ def run(prog: Program, col: Collector, refs: Refs, cat: Catalogue):
                 col.ok(f"{f.fq}::log-einsum at -inf [{backend.split('.')[1]}]", f"{len(subsets)} element-class sets, no NaN, all -inf gives -inf", f.loc())
 
     # ------------------------------------------------------------------ R15.9 safe ops never produce NaN
-    col.rule("R15.9", "safe subtraction, division and reciprocal never produce NaN on their domain", floor=4)
+    if rule_safe is None:
+        col.cur.analysed["scenarios"] = n_scen
+        return
+    col.rule(rule_safe, "safe subtraction, division and reciprocal never produce NaN on their domain", floor=4)
     domains = {
         "safesub": (sorted(LOGDOM), sorted(LOGDOM), "x, y in {-inf, finite}"),
         "safediv": ([NEG, ZERO, POS], [ZERO, POS], "x finite, y >= 0 finite"),
